@@ -42,7 +42,7 @@ func init() {
 		Real:         []string{"service (config decoding, Manager, relays)", "router", "dns", "clientgroups", "cred", "ss2022 (policy fields, key checks)", "all protocol packages under smoke traffic"},
 		Stub:         []string{"kernel sockets (simnet)", "uPSK store on the simulated disk", "clock (synctest)", "TLS and GeoIP (never configured)"},
 		Assumptions:  []string{"the documented defaults are taken from README.md and the doc comments of the configuration structs", "a configuration the catalogue marks invalid violates one invariant only, so the refusal is attributable"},
-		ExpectProbes: []string{"c18.class.invalid", "c18.class.boundary", "c18.class.defaults", "c18.class.smoke", "c18.refused-as-required", "c18.smoke.tcp-ok", "c18.smoke.udp-ok", "c18.defaults.reject-policy", "c18.defaults.padding-policy", "c18.defaults.legacy-listener"},
+		ExpectProbes: []string{"c18.class.invalid", "c18.class.boundary", "c18.class.defaults", "c18.class.smoke", "c18.refused-as-required", "c18.smoke.tcp-ok", "c18.smoke.udp-ok", "c18.defaults.reject-policy", "c18.defaults.padding-policy", "c18.defaults.legacy-listener", "c18.defaults.client-network", "c18.smoke.domain-target"},
 	})
 }
 
@@ -57,6 +57,8 @@ type gen struct {
 	groups  []svc.J
 	router  svc.J
 	targets map[string]uint16
+	// smoke traffic addresses its destination by name
+	domainTarget bool
 }
 
 var allProtos = []string{svc.PDirect, svc.PNone, svc.PSocks5, svc.PHTTP, svc.PSS128, svc.PSS256}
@@ -549,6 +551,12 @@ func smoke(s *simrt.Sim, e *svc.Env, g *gen) {
 		}
 	}
 	target := conn.AddrFromIPAndPort(svc.TargetIP4, tport)
+	if g.domainTarget || s.GenChance(128) {
+		// a name the relay's client has to resolve itself (address family per its "network")
+		e.W.DNS["smoke.example"] = simnet.DNSAnswer{Addrs: []netip.Addr{svc.TargetIP4}}
+		target = conn.MustAddrFromDomainPort("smoke.example", tport)
+		s.Probe("c18.smoke.domain-target")
+	}
 	for _, sp := range g.sp {
 		if sp.TCPPort != 0 {
 			cl, err := e.ClientFor(sp, 0, e.Client, false)
@@ -663,13 +671,57 @@ func echo(u *svc.UpConn) {
 // --- default spellings ----------------------------------------------------------------------------
 
 func runDefaults(s *simrt.Sim, e *svc.Env) {
-	switch s.Choose(3) {
+	switch s.Choose(4) {
 	case 0:
 		defaultsRejectPolicy(s, e)
 	case 1:
 		defaultsPaddingPolicy(s, e)
+	case 2:
+		defaultsClientNetwork(s, e)
 	default:
 		defaultsLegacyListener(s, e)
+	}
+}
+
+// defaultsClientNetwork: clients[].network "If unspecified, "ip" is used" (service/client.go):
+// omitted, empty and "ip" must all resolve names for TCP and for UDP.
+func defaultsClientNetwork(s *simrt.Sim, e *svc.Env) {
+	s.Probe("c18.defaults.client-network")
+	p := util.Pick(s, []string{svc.PNone, svc.PSocks5, svc.PSS128})
+	s.Param("class", "defaults: client network")
+	s.ShapeAdd("defaults client-network " + p)
+	var psk []byte
+	if svc.IsSS(p) {
+		psk = key(s, svc.KeyLen(p))
+	}
+	for i, spelling := range []string{"ip", "omitted", "empty"} {
+		ee := e
+		if i > 0 {
+			ee = e.Fresh()
+		}
+		sp := &svc.ServerSpec{Name: "srv", Proto: p, TCPPort: 1100, UDPPort: 5100, MTU: 1500, PSK: psk}
+		cs := &svc.ClientSpec{Name: "direct", Proto: svc.PDirect, TCP: true, UDP: true, MTU: 1500}
+		g := &gen{s: s, e: ee, router: svc.J{}, sp: []*svc.ServerSpec{sp}, cs: []*svc.ClientSpec{cs}, domainTarget: true}
+		d := g.doc()
+		cl := d["clients"].([]svc.J)[0]
+		switch spelling {
+		case "ip":
+			cl["network"] = "ip"
+		case "empty":
+			cl["network"] = ""
+		}
+		doc := svc.MustJSON(d)
+		if err := ee.Load(doc); err != nil {
+			s.Fail("c18.valid-refused{client-network}", "refused (network %s): %v\n%s", spelling, err, doc)
+			return
+		}
+		smoke(s, ee, g)
+		if s.Failed() {
+			if spelling != "ip" {
+				s.Logf("the same configuration with \"network\": \"ip\" passed the smoke exchange; with the field %s it did not", spelling)
+			}
+			return
+		}
 	}
 }
 
